@@ -108,11 +108,24 @@ def workspace_sizes(ck, quick, wd):
         st, op, err = api.run_script(txt, wd, "ws%d_%d_%d" % (P, pct, len(mat)), variant="asan", timeout=90)
         rr = [r for r in api.calls_of(op) if r.get("call") == "gssvx"]
         d = [l for l in err.splitlines() if "SUMMARY" in l or "ERROR" in l]
-        return a, st, (rr[-1] if rr else None), (d[-1][:160] if d else ""), txt
-    for (P, pct, mat), st, rec, d, txt in common.pmap(one, items):
+        # the workspace as the two-ended stack it is: every critical section of p?memory.c is a step of SluStack
+        sr, sn = api.validate_stack(wd, "ws%d_%d_%d" % (P, pct, len(mat)), op) if os.path.exists(op) else (None, 0)
+        return a, st, (rr[-1] if rr else None), (d[-1][:160] if d else ""), txt, sr, sn
+    for (P, pct, mat), st, rec, d, txt, sr, sn in common.pmap(one, items):
         key = "ws:P%d:%d%%:%s" % (P, pct, mat.split()[1])
         ck.case(key)
         n = 20 if "n=20" in mat else 25
+        if sr is not None:
+            ck.model(sr.get("distinct", 0), sr.get("generated", 0))
+            ck.notes["stack_events_validated"] = ck.notes.get("stack_events_validated", 0) + sn
+            if tlc.inconclusive(sr):
+                ck.notes["stack_traces_not_decided"] = ck.notes.get("stack_traces_not_decided", 0) + 1
+            elif not sr["ok"]:
+                rl = sr["rejected_line"]
+                ck.violation("stack:" + key, "caller's workspace = %d %% of the estimate, %d thread(s): the workspace stack left SluStack (%s) at event %s: %s after %s" % (
+                    pct, P, sr["violated"] or "step not allowed", rl, sr["events"][rl - 1] if rl else "?", sr["events"][rl - 2] if rl and rl > 1 else "start"), {"script": txt})
+            else:
+                ck.traces()
         if not acceptable(st, rec, n):
             ck.violation("wsmall:%d" % pct if pct <= 20 else key,
                          "caller's workspace = %d %% of the library's lwork=-1 estimate, %d thread(s): outcome %s %s guard=%s" % (pct, P, st, d, rec.get("guard") if rec else None),
